@@ -8,13 +8,17 @@
 
     NOT theorems (decided on the implementation by exhaustive enumeration over n, see checks/C12.py):
     that the Newton iteration converges, for every n, to the m distinct non-negative roots of P_n
-    (hence: nodes strictly increasing and strictly inside, middle z exactly/nearly 0), that the weights
-    are positive, and that the rule on [-1,1] is exact to degree 2n-1 (the classical Gauss theorem
-    applied to the computed numbers).  [C12_affine_exactness] and [C12_moment_checker_sound] reduce
-    "exact on every polynomial of degree <= 2n-1 on every interval" to the 2n moments on [-1,1]. *)
+    (i.e. that its results satisfy [roots_ok] and [pp_ok]), and that the rule on [-1,1] is exact to degree
+    2n-1 (the classical Gauss theorem applied to the computed numbers).
+    [C12_valid_rule_of_roots] reduces "strictly increasing, strictly inside, weights of the sign of b-a, on
+    every interval" to [roots_ok]/[pp_ok], two statements about the Newton results alone (no interval);
+    [C12_affine_exactness] and [C12_moment_checker_sound] reduce "exact on every polynomial of degree <= 2n-1
+    on every interval" to the 2n moments on [-1,1]; [C12_legendre_loop], [C12_pp_is_derivative] and
+    [C12_newton_stage] establish what the Newton stage computes: genuine Newton steps on the Legendre polynomial
+    of Bonnet's recurrence, stopped at a step of at most 1e-14. *)
 From Coq Require Import Reals ZArith List.
 From Coquelicot Require Import Coquelicot.
-From LP Require Import Num NumR C12_Model C12_Proofs.
+From LP Require Import Num NumR C12_Model C12_Proofs C12_Proofs_B.
 Import ListNotations.
 Local Open Scope R_scope.
 
@@ -145,3 +149,122 @@ Theorem C12_nest_exit_propagates {T} (Ops : NumOps T) (core : list T -> res T) l
   forall xs, gl_nest Ops levs core xs = Exit.
 Proof. exact (nest_exit_propagates Ops core levs). Qed.
 Print Assumptions C12_nest_exit_propagates.
+
+(** ** Validity on every interval from the Newton results *)
+
+(** "the computed nodes are strictly increasing, lie strictly inside the interval ...; the weights are positive ...
+    (for reversed limits the rule is the mirror image with all weights negated)": for EVERY n >= 1 and EVERY interval,
+    both orientations, provided the Newton results are strictly decreasing in (-1,1) with a last one that is positive
+    (even n) or above the negatives of the others (odd n), and the derivatives pp do not vanish ([roots_ok], [pp_ok]:
+    statements about the Newton stage alone) *)
+Theorem C12_valid_rule_of_roots n zs : (1 <= n)%nat -> length zs = gl_m n -> roots_ok n zs -> pp_ok n zs ->
+  forall a b,
+  (a < b ->
+     (forall i j, (i < j)%nat -> (j < n)%nat -> node n a b zs i < node n a b zs j) /\
+     (forall i, (i < n)%nat -> a < node n a b zs i < b) /\
+     (forall i, (i < n)%nat -> 0 < weight n a b zs i)) /\
+  (b < a ->
+     (forall i j, (i < j)%nat -> (j < n)%nat -> node n a b zs j < node n a b zs i) /\
+     (forall i, (i < n)%nat -> b < node n a b zs i < a) /\
+     (forall i, (i < n)%nat -> weight n a b zs i < 0)).
+Proof. exact (valid_rule_of_roots n zs). Qed.
+Print Assumptions C12_valid_rule_of_roots.
+
+(** the hypotheses are satisfiable: by the exact results of n = 1 (that the Newton stage over the reals delivers exactly these,
+    [gl_roots ROps 1 = Ok [(0, 1)]], is ex_roots_1 in C12_Examples_R.v) and by a three-point table *)
+Example C12_valid_rule_hyp_1 : roots_ok 1 [(0, 1)] /\ pp_ok 1 [(0, 1)].
+Proof. exact ex_roots_ok_1. Qed.
+Example C12_valid_rule_hyp_3 : roots_ok 3 [(3/4, 1); (0, 2)] /\ pp_ok 3 [(3/4, 1); (0, 2)].
+Proof. exact ex_roots_ok_3. Qed.
+
+(** ** What the Newton stage computes *)
+
+(** "Newton iteration on Legendre recurrence": the inner for loop computes (P_n(z), P_(n-1)(z)) of Bonnet's recurrence
+    P_0 = 1, P_1 = z, (k+2) P_(k+2) = (2k+3) z P_(k+1) - (k+1) P_k, for every n and z *)
+Theorem C12_legendre_loop n z :
+  legendre ROps n 0%Z z (one ROps) (zero ROps) = (Leg n z, snd (LegP n z)) /\
+  (forall k, snd (LegP (S k) z) = Leg k z) /\
+  Leg 0 z = 1 /\ Leg 1 z = z /\
+  (forall k, (INR k + 2) * Leg (S (S k)) z = (2 * INR k + 3) * z * Leg (S k) z - (INR k + 1) * Leg k z).
+Proof.
+  exact (conj (eq_trans (legendre_is_Leg n z) (surjective_pairing _))
+        (conj (fun k => LegP_snd k z) (conj (Leg_0 z) (conj (Leg_1 z) (fun k => Leg_bonnet k z))))).
+Qed.
+Print Assumptions C12_legendre_loop.
+
+(** the source's pp = n (z p1 - p2)/(z^2 - 1) is the derivative of P_n at z (z^2 <> 1), for every n: the update
+    z - p1/pp is a Newton step on P_n *)
+Theorem C12_pp_is_derivative n z :
+  is_derive (Leg n) z (dLeg n z) /\
+  (z * z <> 1 -> INR n * (z * Leg n z - snd (LegP n z)) / (z * z - 1) = dLeg n z) /\
+  (z * z <> 1 -> forall f,
+     newton ROps (S f) n (INR n) z =
+     if Rleb (Rabs (newton_next n z - z)) eps14 then Ok (newton_next n z, dLeg n z)
+     else newton ROps f n (INR n) (newton_next n z)).
+Proof. exact (conj (is_derive_Leg n z) (conj (pp_is_derivative n z) (fun H f => newton_step_R f n z H))). Qed.
+Print Assumptions C12_pp_is_derivative.
+
+(** "Newton iteration ... from the Chebyshev-like guess, tolerance 1e-14": every pair (z_i, pp_i) the Newton stage
+    delivers, for every n and i, is (N(z1), P_n'(z1)) for an iterate z1 = N^k(guess_i), N(z) = z - P_n(z)/P_n'(z), with
+    |N(z1) - z1| <= 1e-14 (so |P_n(z1)| <= 1e-14 |P_n'(z1)|) and every earlier step larger than 1e-14
+    (premise: no iterate is exactly +-1, where the source divides by zero) *)
+Theorem C12_newton_stage n zs : gl_roots ROps n = Ok zs ->
+  (forall i k, (i < gl_m n)%nat -> (k < newton_fuel)%nat -> newton_iter n k (guess n i) * newton_iter n k (guess n i) <> 1) ->
+  forall i, (i < gl_m n)%nat ->
+  exists k, (k < newton_fuel)%nat /\
+    let z1 := newton_iter n k (guess n i) in
+    nth i zs (0, 0) = (newton_next n z1, dLeg n z1) /\ Rabs (newton_next n z1 - z1) <= eps14 /\
+    (forall j, (j < k)%nat -> eps14 < Rabs (newton_next n (newton_iter n j (guess n i)) - newton_iter n j (guess n i))).
+Proof. exact (roots_are_newton_steps n zs). Qed.
+Print Assumptions C12_newton_stage.
+
+Theorem C12_newton_residual n z1 : dLeg n z1 <> 0 -> Rabs (newton_next n z1 - z1) <= eps14 ->
+  Rabs (Leg n z1) <= eps14 * Rabs (dLeg n z1).
+Proof. exact (newton_residual n z1). Qed.
+Print Assumptions C12_newton_residual.
+
+(** non-vacuity: from the starting point 0 the loop for n = 1 returns (0, 1) at once and no iterate is +-1; from the actual guess
+    cos(M_PI/2) (M_PI the decimal of math.h, so the guess is not 0) it returns after one step: ex_newton_1, ex_newton_stage_hyp_1 in
+    C12_Examples_R.v (they need Interval, which is kept out of this file's dependencies) *)
+Example C12_newton_hyp_1 : newton ROps newton_fuel 1 (INR 1) 0 = Ok (newton_next 1 0, dLeg 1 0) /\ newton_next 1 0 = 0 /\ dLeg 1 0 = 1 /\
+  (forall k, (k < newton_fuel)%nat -> newton_iter 1 k 0 * newton_iter 1 k 0 <> 1).
+Proof. exact ex_newton_from_0. Qed.
+
+(** ** Integrands that throw, handlers inside enclosing integrands
+    ([res (option T)] evaluations: [Ok None] = an exception propagates; a level may carry a handler with a substitute value) *)
+
+(** without exceptions the model with handlers is the exception-free model: handlers are never used *)
+Theorem C12_throwing_refines {T} (Ops : NumOps T) (core : list T -> res T) levs xs :
+  gl_nestX Ops levs (fun ys => xlift (core ys)) xs = xlift (gl_nest Ops (map fst levs) core xs).
+Proof. exact (nestX_pure Ops core levs xs). Qed.
+Print Assumptions C12_throwing_refines.
+
+(** "The three Integrate_Gauss_Legendre overloads give the same value for the same rule" also when evaluations throw
+    and handlers intervene, at every depth *)
+Theorem C12_nestX_overloads_agree {T} (Ops : NumOps T) (core : list T -> res (option T)) levs levs' :
+  Forall2 (levX_same) levs levs' -> forall xs, gl_nestX Ops levs core xs = gl_nestX Ops levs' core xs.
+Proof. exact (nestX_overloads_agree Ops core levs levs'). Qed.
+Print Assumptions C12_nestX_overloads_agree.
+
+(** a call under a handler never lets an exception out, and is unchanged when none arrives *)
+Theorem C12_handler {T} (Ops : NumOps T) k n a b fb (f : T -> res (option T)) :
+  ~ (gl_levelX Ops k n a b (Some fb) f = Ok None) /\
+  (gl_levelX Ops k n a b None f = Ok None -> gl_levelX Ops k n a b (Some fb) f = Ok (Some fb)) /\
+  (~ (gl_levelX Ops k n a b None f = Ok None) -> gl_levelX Ops k n a b (Some fb) f = gl_levelX Ops k n a b None f).
+Proof. exact (levelX_handled Ops k n a b fb f). Qed.
+Print Assumptions C12_handler.
+
+(** a failed and handled inner integration counts as its substitute value and leaves nothing behind: the nest equals the
+    nest of the levels above the handler applied to the constant substitute *)
+Theorem C12_handled_failure {T} (Ops : NumOps T) (core : list T -> res (option T)) outer l fb inner :
+  (forall xs, core xs = Ok None) -> lev_ok Ops l ->
+  List.Forall (fun l : @gl_levX T => lev_ok Ops (fst l) /\ snd l = None) inner ->
+  forall xs, gl_nestX Ops (outer ++ (l, Some fb) :: inner) core xs = gl_nestX Ops outer (fun _ => Ok (Some fb)) xs.
+Proof. exact (nestX_handled_failure Ops core outer l fb inner). Qed.
+Print Assumptions C12_handled_failure.
+
+(** the hypotheses are satisfiable: two descriptions of the same levels through different overloads; that [lev_ok] holds over the
+    reals for n = 1 on every interval is ex_handled_failure_hyp in C12_Examples_R.v *)
+Example C12_nestX_hyp (a b : R) :
+  Forall2 levX_same [(((KInt, 1%nat), (a, b)), Some 0); (((KDef, 7%nat), (b, a)), None)] [(((KVal, 1%nat), (a, b)), Some 0); (((KFun, 30%nat), (b, a)), None)].
+Proof. repeat constructor. Qed.
